@@ -451,20 +451,26 @@ def fs_of(tok, s):
     return out
 
 
-def run_model(infos, facts, newrules):
-    body = []
+def run_model(infos, facts, newrules, nproc=4):
+    chunks = [[] for _ in range(nproc)]
     for i, info in enumerate(infos):
         sid = info['shape']['id']
-        body.append(f'Definition O_{i} : oracle :=\n  {oracle_coq(info, facts, newrules)}.')
+        body = [f'Definition O_{i} : oracle :=\n  {oracle_coq(info, facts, newrules)}.']
         if info['shape']['kind'] == 'csv':
             call = f'csv_report O_{i} {info["cmd_coq"]} {info["f0"]} "{info["tok"].lab["c"]}"'
         else:
             call = f'layout_report O_{i} {info["f0"]} "{info["tok"].lab["r"]}"'
         body.append(f'Eval vm_compute in ("shape|{sid}" :: {call}).')
-    rc, out, err = run_cases('C15', HEADER, '\n'.join(body))
-    if rc != 0:
-        return None, (out + err)[-1500:]
-    return parse_model(out), ''
+        chunks[i % nproc].append('\n'.join(body))
+    shapes = {}
+    with concurrent.futures.ThreadPoolExecutor(nproc) as ex:
+        outs = list(ex.map(lambda a: run_cases(f'C15_{a[0]}', HEADER, '\n'.join(a[1])) if a[1] else (0, '', ''),
+                           enumerate(chunks)))
+    for rc, out, err in outs:
+        if rc != 0:
+            return None, (out + err)[-1500:]
+        shapes.update(parse_model(out))
+    return shapes, ''
 
 
 # ---- the property on implementation observations only (direct oracle) -----------------------------------
